@@ -107,7 +107,8 @@ def run_cases(hbin, runner, flags, cmds, timeout=3000):
     mism, stats, lines = [], {}, []
     for i in range(0, len(cmds), NPROC):
         batch = cmds[i:i + NPROC]
-        outs = run_pipeline(["%s %s | %s %s" % (hbin, c, runner, flags) for c in batch], timeout=timeout)
+        # the extracted model recurses as deep as the expressions are nested / chained: give the runner a large stack
+        outs = run_pipeline(["%s %s | (ulimit -s unlimited 2>/dev/null; %s %s)" % (hbin, c, runner, flags) for c in batch], timeout=timeout)
         for (rc, out), c in zip(outs, batch):
             m, s, other = parse_runner_output(out)
             if rc != 0 or "mismatches" not in s or "evaluations" not in s:
@@ -198,7 +199,7 @@ def run(tier, seed, replay=None):
         with tempfile.NamedTemporaryFile("w", suffix=".pest", delete=False) as f:
             f.write(text)
             path = f.name
-        rc, out = sh("%s file %s | %s %s" % (hbin, shlex.quote(path), runner, rflags), timeout=300)
+        rc, out = sh("%s file %s | (ulimit -s unlimited 2>/dev/null; %s %s)" % (hbin, shlex.quote(path), runner, rflags), timeout=300)
         os.unlink(path)
         m, s, _ = parse_runner_output(out)
         spec = [x for x in m if x["kind"] == "spec"]
